@@ -88,7 +88,7 @@ theorem firstString_key {k : Str} {bs : List Block} {p : Live} (h : firstString 
     | _ => exact ih (by simpa [firstString] using h)
 
 /-- the indexes and the block list agree with the specification on the blocks added so far -/
-structure LibInv (L : Lib) (pre : List Block) : Prop where
+structure LibInv (L : KLib) (pre : List Block) : Prop where
   eidx : ∀ k, L.eidx.lookup k = firstEntry k pre
   sidx : ∀ k, L.sidx.lookup k = firstString k pre
   blocks : L.blocks = addAllSpec [] pre
@@ -103,7 +103,7 @@ theorem addAllSpec_snoc (pre : List Block) (b : Block) :
     addAllSpec [] (pre ++ [b]) = addAllSpec [] pre ++ [addSpec pre b] := by
   rw [addAllSpec_append]; simp [addAllSpec]
 
-theorem addOne_inv (L : Lib) (pre : List Block) (b : Block) (h : LibInv L pre) :
+theorem addOne_inv (L : KLib) (pre : List Block) (b : Block) (h : LibInv L pre) :
     ∃ L', addOne L b = .ok L' ∧ LibInv L' (pre ++ [b]) := by
   cases b with
   | live l =>
@@ -208,7 +208,7 @@ theorem addOne_inv (L : Lib) (pre : List Block) (b : Block) (h : LibInv L pre) :
     · intro k; simp [h.sidx k, firstString_append, firstString]; cases firstString k pre <;> rfl
     · simp only [addAllSpec_snoc, h.blocks, addSpec]
 
-theorem addMany_inv (bs : List Block) : ∀ (L : Lib) (pre : List Block), LibInv L pre →
+theorem addMany_inv (bs : List Block) : ∀ (L : KLib) (pre : List Block), LibInv L pre →
     ∃ L', addMany L bs = .ok L' ∧ LibInv L' (pre ++ bs) := by
   induction bs with
   | nil => intro L pre h; exact ⟨L, rfl, by simpa using h⟩
